@@ -1,6 +1,7 @@
-SPECIFICATION Spec
+INIT MCInit
+NEXT Next
 CONSTANTS
-  Calls <- MCCalls
+  Full = TRUE
   SC = 8
 INVARIANT DumpInit
 CONSTRAINT Bound
